@@ -20,7 +20,7 @@
    (blocks, loops, try statements with their phase and pending completion), and a completion
    (break / continue / return / throw) is delivered by walking it outwards - which is exactly
    what the property statements about exceptions and finally say.                              *)
-EXTENDS Values, Json
+EXTENDS Values, Json, IOUtils
 
 CONSTANTS MaxSteps        \* bound on machine steps per run (a run that exceeds it is not compared)
 
@@ -95,10 +95,15 @@ Cls(name) == [k |-> "cls", v |-> name]
 BuiltinClasses == {"Fiber", "Object", "Error", "RuntimeError", "AttributeError", "IndexError", "ImportError", "NameError",
                    "TypeError", "ValueError", "StopIter"}
 
+(* core.yl's iterator classes (Iter, MapIter, FilterIter) are yarel code; the machine runs the same
+   code, given as tokens that carry their core.yl line numbers, before the program's own tokens *)
+PreludeToks == TLCEval(IF "PRELUDE" \in DOMAIN IOEnv THEN ndJsonDeserialize(IOEnv.PRELUDE)[1].prog ELSE <<>>)
+
 InitMachine(p) ==
-    [prog |-> p,
+    [prog |-> PreludeToks \o p,
+     plen |-> Len(PreludeToks),
      store |-> <<>>,
-     glob |-> [mod \in {"main"} |-> [x \in {"print", "type", "clock"} \cup BuiltinClasses |->
+     glob |-> [mod \in {"main"} |-> [x \in {"print", "type", "clock", "host_fail"} \cup BuiltinClasses |->
                                       IF x \in BuiltinClasses THEN Cls(x) ELSE Nat_(x)]],
      fibers |-> <<Fiber(<<Frame(0, 1, <<>>, Nil, "main")>>, "run")>>,
      cur |-> 1,
@@ -111,6 +116,8 @@ InitMachine(p) ==
      retv |-> Nil,
      n |-> 0]
 
+LineAt(m, pc) == IF pc < 1 \/ pc > Len(m.prog) THEN pc - m.plen
+                  ELSE IF "ln" \in DOMAIN m.prog[pc] THEN m.prog[pc].ln ELSE pc - m.plen
 CurFiber(m) == m.fibers[m.cur]
 NFrames(m) == Len(CurFiber(m).frames)
 CurFrame(m) == CurFiber(m).frames[NFrames(m)]
@@ -433,7 +440,7 @@ CallValue(m, f, args, self) ==
                   b == BindParams(m1, env1, c.ps, args, 1)
                   fr00 == Frame(f.v, IF c.lam THEN 0 ELSE c.at + 1, b.env, selfv, c.mod)
                   fr0 == [fr00 EXCEPT !.selfcell = IF c.sd > 0 THEN NewAddr(m0) ELSE 0, !.ctor = (c.ctor = "init")]
-                  fr1 == IF c.lam THEN [fr0 EXCEPT !.k = <<Ev(c.body), It("ret")>>, !.line = c.at] ELSE fr0
+                  fr1 == IF c.lam THEN [fr0 EXCEPT !.k = <<Ev(c.body), It("ret")>>, !.line = -c.at] ELSE fr0
               IN [b.m EXCEPT !.fibers[m.cur].frames = Append(CurFiber(m).frames, fr1), !.brk = TRUE,
                              !.fibers[m.cur].fresh = IF NFrames(m) = 1 THEN FALSE ELSE @]
     ELSE IF f.k = "nat" THEN
@@ -444,6 +451,13 @@ CallValue(m, f, args, self) ==
                 IF Len(args) # 1 THEN RaiseErr(m, ParamErr(1, Len(args)))
                 ELSE IF IsKind(m, args[1], "class") \/ args[1].k = "cls" THEN [Finish(m, FALSE, "OutOfModel", <<>>) EXCEPT !.oom = TRUE]
                 ELSE SetFrame(m, Push(CurFrame(m), ClassOfValue(m, args[1])))
+           [] f.v = "host_fail" ->
+                \* a host-provided native (defined by the harness) failing with the ErrorKind named by its argument
+                IF Len(args) # 1 THEN RaiseErr(m, Err("TypeError", "Expected one argument to 'host_fail'."))
+                ELSE LET kname == Text(m, args[1]) IN
+                     IF kname \in (ErrorClasses \ {"Error", "StopIter"}) \cup {"CompileError"}
+                     THEN RaiseErr(m, Err(IF kname = "CompileError" THEN "RuntimeError" ELSE kname, "host failure " \o kname))
+                     ELSE SetFrame(m, Push(CurFrame(m), Nil))
            [] OTHER -> RaiseErr(m, Err("TypeError", "Can only call functions and methods."))
     ELSE RaiseErr(m, Err("TypeError", "Can only call functions and methods."))
 
@@ -482,8 +496,7 @@ Invoke(m, r, name, args) ==
            [] OTHER -> RaiseErr(m, AttrErr(name))
     ELSE IF IsKind(m, r, "iter") THEN
          LET it == Obj(m, r) IN
-         CASE name = "iter" -> IF Arity(0) THEN RaiseErr(m, ArityErr(0, n)) ELSE Ret(m, r)      \* Iter.iter (core.yl): a closure
-           [] name = "next" ->
+         CASE name = "next" ->
                 IF Arity(0) THEN RaiseErr(m, ParamErr(0, n))
                 ELSE IF it.kind = "range" THEN
                      LET rg == m.store[it.src] IN
@@ -492,7 +505,11 @@ Invoke(m, r, name, args) ==
                 ELSE LET es == m.store[it.src].es IN
                      IF it.pos >= Len(es) THEN LET s == StopIterV(m) IN Ret(s.m, s.v)
                      ELSE Ret([m EXCEPT !.store[r.v].pos = it.pos + 1], es[it.pos + 1])
-           [] OTHER -> RaiseErr(m, AttrErr(name))
+           [] OTHER ->
+                \* the built-in iterator classes derive core.yl's Iter
+                LET itc == IF "Iter" \in DOMAIN m.glob["main"] THEN m.glob["main"]["Iter"] ELSE Nil IN
+                IF IsKind(m, itc, "class") /\ name \in DOMAIN Obj(m, itc).methods THEN CallValue(m, Obj(m, itc).methods[name], args, r)
+                ELSE RaiseErr(m, AttrErr(name))
     ELSE IF IsKind(m, r, "inst") THEN
          \* fields shadow methods; then the class's (flattened) method table
          IF name \in DOMAIN Obj(m, r).fields THEN CallValue(m, Obj(m, r).fields[name], args, Nil)
@@ -546,7 +563,7 @@ Invoke(m, r, name, args) ==
                      \* first call: the closure's frame, parameter bound to the argument
                      LET b == BindParams(m, clo.env, clo.ps, args, 1)
                          fr0 == Frame(fb.clo, IF clo.lam THEN 0 ELSE clo.at + 1, b.env, Nil, clo.mod)
-                         fr1 == IF clo.lam THEN [fr0 EXCEPT !.k = <<Ev(clo.body), It("ret")>>, !.line = clo.at] ELSE fr0
+                         fr1 == IF clo.lam THEN [fr0 EXCEPT !.k = <<Ev(clo.body), It("ret")>>, !.line = -clo.at] ELSE fr0
                      IN [b.m EXCEPT !.fibers[fi].frames = <<fr1>>, !.fibers[fi].st = "run", !.fibers[fi].caller = m.cur,
                                     !.fibers[m.cur].fresh = FALSE, !.cur = fi, !.brk = TRUE]
                 ELSE \* resume: the pending yield expression evaluates to the argument (nil if omitted)
@@ -574,7 +591,7 @@ Micro(m) ==
          CASE e.k = "lit" -> SetFrame(m, Push(fr1, e.v))
            [] e.k = "var" -> LET r == ReadVar(m, fr, e.x, e.d) IN IF IsErr(r.err) THEN Fail(r.err) ELSE SetFrame(m, Push(fr1, r.v))
            [] e.k = "lam" ->
-                LET m2 == Alloc(m1, Closure(fr.line, fr.env, e.name, e.ps, TRUE, e.e, fr.mod))
+                LET m2 == Alloc(m1, Closure(-fr.line, fr.env, e.name, e.ps, TRUE, e.e, fr.mod))
                 IN SetFrame(m2, Push(CurFrame(m2), Ref(NewAddr(m1))))
            [] OTHER -> SetFrame(m, [fr1 EXCEPT !.k = Items(e) \o fr1.k])
       [] it.i = "bin" ->
@@ -671,7 +688,7 @@ Micro(m) ==
                                      !.env = Append(fr.env, <<tk.d, NewAddr(m1)>>), !.k = <<It("fornext")>> \o fr1.k])
       [] it.i = "fornext" ->
          LET e == Top(fr.ctl) IN
-         Invoke(SetFrame(m, [fr1 EXCEPT !.k = <<It("fornext2")>> \o fr1.k]), e.it, "next", <<>>)
+         Invoke(SetFrame(m, [fr1 EXCEPT !.k = <<It("fornext2")>> \o fr1.k, !.line = LineAt(m, e.at)]), e.it, "next", <<>>)
       [] it.i = "fornext2" ->
          \* the value of next(): assigned to the loop variable first, then tested (as compiled)
          LET e == Top(fr.ctl)
@@ -739,7 +756,7 @@ Fetch(m) ==
          DeliverHere(m, Comp("return", Nil))
     ELSE
     LET tk == p[pc]
-        frl == [fr EXCEPT !.line = pc]
+        frl == [fr EXCEPT !.line = LineAt(m, pc)]
         Go(items) == SetFrame(m, [frl EXCEPT !.k = items])
         Jump(f2) == SetFrame(m, f2)
     IN
